@@ -115,6 +115,7 @@ int main(int argc, char** argv)
         L.count("scheduling_points_max", 0);
         L.ratio("points_per_execution/1000", (long double) last.max_points / 1000);
         for (uint64_t o : outcomes) { Fnv f; f.str(key); f.pod(o); L.states.insert(f.h); L.distinct.insert(f.h); }
+        L.sample("{\"body\": " + jstr(key) + ", \"completed_preemption_bound\": " + num(completed) + ", \"executions\": " + num(last.executions) + ", \"scheduling_points_per_execution\": " + num(last.max_points) + "}", 4);
         if (mism)
             L.violate(key + "|interleaving-changes-result", "schedules#" + num(idx),
                       num(mism) + " schedule(s) with <= " + num(tk.P) + " preemptions give a result different from the sequential run; first schedule (choice list): " + first_bad.substr(0, 600));
